@@ -18,6 +18,9 @@ CHECKS = {
  'C12': dict(
    text='Wire end coordinates are solver variables (abstract length, generic position): for every feasible coincidence pattern of the ends of up to 3 (thorough 4) wires with 1..3 segments, with and without ground, count and numbering are compared with the topology formula and the placement of every pulse on its two segments is decided by z3 for all coordinates of the class; the 1/1000 matching tolerance is decided with the exact norm on a two-wire frame.',
    design='DESIGN.md 3 (C12), 2.4'),
+ 'C17': dict(
+   text='Tags (arbitrary integers or automatic), the per-object address (k,t) and the absolute pulse number are solver variables; on every path (tag order, validity class, addressed row) z3 decides in linear integer arithmetic that sources and loads act on exactly the row of the printed geometry table the user named, that invalid addresses are refused, that all/all,t load each pulse once and that the listings name the pulse; bounded by the listed models.',
+   design='DESIGN.md 3 (C17)'),
  'C16': dict(
    text='For all finite IEEE doubles start/increment in the stated ranges and each listed count, the table sizes are decided bit-precisely in QF_FP on the real grid construction and the point values under the standard model of floating-point arithmetic; far-field angle tables likewise.',
    design='DESIGN.md 3 (C16)',
